@@ -16,6 +16,8 @@ import FianoModel.Fsp.Total
 import FianoModel.Fit.Total
 import FianoModel.Psb.Total
 import FianoModel.Compression.Total
+import FianoModel.Total.Apcb
+import FianoModel.Total.Cbfs
 import FianoModel.Gen.C20Fmap
 import FianoModel.Gen.C20Microcode
 import FianoModel.Gen.C20Me
@@ -25,6 +27,8 @@ import FianoModel.Gen.C20FitCheck
 import FianoModel.Gen.C20FitConsts
 import FianoModel.Gen.C20Psb
 import FianoModel.Gen.C20Compression
+import FianoModel.Gen.C20Apcb
+import FianoModel.Gen.C20Cbfs
 
 namespace Fiano.C20Tie
 open Fiano.Gen
@@ -159,5 +163,88 @@ theorem sites_plain_decoders : C20Compression.sites_LZMA_Decode = [] ∧ C20Comp
     C20Compression.sites_LZ4_Decode = [] ∧ C20Compression.sites_LZMAX86_Decode = [] := by decide
 theorem const_zlib : CompressionTotal.zlibSectionHeaderSize = C20Compression.zlibSectionHeaderSize ∧
     CompressionTotal.zlibSizeOffset = C20Compression.zlibSizeOffset := by decide
+
+/-! ## pkg/amd/apcb (`Total/Apcb.lean`) -/
+
+set_option maxRecDepth 100000 in
+/-- the slices of the listing callback and of the three walks: one `sliceG` / `sliceFromG` each -/
+theorem sites_apcb : C20Apcb.sites_parseAPCBHeader = ["apcbBinary[uint32(binary.Size(header)):header.V2Header.SizeOfAPCB]"] ∧
+    C20Apcb.sites_ParseAPCBBinaryTokens =
+      ["remainBytes[groupOffset+uint32(groupHeader.SizeOfHeader) : groupOffset+groupHeader.SizeOfGroup]",
+       "groupData[typeOffset+uint32(binary.Size(typeHeader)) : typeOffset+uint32(typeHeader.SizeOfType)]"] ∧
+    C20Apcb.sites_iterateTokenGroups = ["remainBytes[groupHeader.SizeOfGroup:]"] ∧
+    C20Apcb.sites_iterateTypes = ["remainBytes[typeHeader.SizeOfType:]"] ∧
+    C20Apcb.sites_iterateTokens = [] := by decide
+
+set_option maxRecDepth 100000 in
+/-- **the progress guards of the group walk**: `SizeOfGroup < header size` and `> len(remaining)` are
+    tested directly in the loop body — for every group — and only the `SizeOfHeader` test is inside
+    the `GroupID == tokensGroupID` branch (`ApcbTotal.groupsG` has exactly this shape; seeded defect
+    c20-2 moves the first test into the branch and breaks this theorem) -/
+theorem guards_apcb_iterateTokenGroups : C20Apcb.guards_iterateTokenGroups =
+    ["for: len(remainBytes) > 0",
+     "for/if: err != nil",
+     "for/if: groupHeader.SizeOfGroup < groupHeaderSize",
+     "for/if: groupHeader.SizeOfGroup > uint32(len(remainBytes))",
+     "for/if: groupHeader.GroupID == tokensGroupID",
+     "for/if/if: uint32(groupHeader.SizeOfHeader) > groupHeader.SizeOfGroup",
+     "for/if/if: err != nil"] := by decide
+theorem guards_apcb_iterateTypes : C20Apcb.guards_iterateTypes =
+    ["for: len(remainBytes) > 0",
+     "for/if: err != nil",
+     "for/if: typeHeader.SizeOfType < typeHeaderSize",
+     "for/if: int(typeHeader.SizeOfType) > len(remainBytes)",
+     "for/if: err != nil"] := by decide
+theorem guards_apcb_iterateTokens : C20Apcb.guards_iterateTokens =
+    ["if: len(typeData)%tokenPairSize != 0", "for: i < tokensCount", "for/if: err != nil", "for/if: err != nil"] := by decide
+theorem const_apcb : ApcbTotal.hdrSize = C20Apcb.size_headerV3 ∧ ApcbTotal.gHdrSize = C20Apcb.size_groupHeader ∧
+    ApcbTotal.tHdrSize = C20Apcb.size_typeHeaderV3 ∧ ApcbTotal.pairSize = C20Apcb.size_tokenPair ∧
+    ApcbTotal.tokensGroupID = C20Apcb.tokensGroupID ∧ C20Apcb.headerV2Signature = 0x42435041 ∧
+    C20Apcb.headerV3Signature = 0x32424345 ∧ C20Apcb.headerV3EndingSignature = 0x41424342 := by decide
+/-- offsets used by `groupsG` / `typesG` -/
+theorem layout_apcb : C20Apcb.layout_groupHeader =
+      [("Signature", 4), ("GroupID", 2), ("SizeOfHeader", 2), ("Version", 2), ("Reserved", 2), ("SizeOfGroup", 4)] ∧
+    (C20Apcb.layout_typeHeaderV3.take 3) = [("GroupID", 2), ("TypeID", 2), ("SizeOfType", 2)] := by decide
+
+/-! ## pkg/cbfs (`Total/Cbfs.lean`) -/
+
+set_option maxRecDepth 100000 in
+/-- cbfs has no slice of image data; every `make` by a length field is an `allocB` of the model
+    (`FindAttribute`'s is reached from `Compression()` / `Decompress()`: T2 only) -/
+theorem sites_cbfs : C20Cbfs.sites_NewImage = ["SegReaders[f.Type]"] ∧ C20Cbfs.sites_NewFile = ["f.Magic[:]"] ∧
+    C20Cbfs.sites_ReadName = ["make([]byte, size)", "z[0]"] ∧
+    C20Cbfs.sites_ReadAttributes = ["make([]byte, f.SubHeaderOffset-f.AttrOffset)"] ∧
+    C20Cbfs.sites_ReadData = ["make([]byte, f.Size)"] ∧
+    C20Cbfs.sites_File_FindAttribute = ["make([]byte, generic.Size)"] ∧
+    C20Cbfs.sites_LegacyStageRecord_Read = ["make([]byte, r.StageHeader.Size)"] ∧
+    C20Cbfs.sites_PayloadRecord_Read = ["make([]byte, bodySize)"] ∧ C20Cbfs.sites_MasterRecord_Read = [] := by decide
+set_option maxRecDepth 100000 in
+/-- the fit check of `NewFile` stands before the three readers that allocate (`CbfsTotal.newFileG`) -/
+theorem guards_cbfs_NewFile : C20Cbfs.guards_NewFile =
+    ["if: err != nil", "if: err != nil", "if: string(f.Magic[:]) != FileMagic", "if: err != nil", "if: err != nil",
+     "if: f.AttrOffset != 0",
+     "if: nameEnd < uint32(binary.Size(FileHeader{})) || f.SubHeaderOffset < nameEnd || off+int64(f.SubHeaderOffset)+int64(f.Size) > inputEnd",
+     "if: f.AttrOffset == 0", "if: err != nil", "if: err != nil", "if: err != nil"] := by decide
+set_option maxRecDepth 100000 in
+/-- the record walk of `NewImage` (`CbfsTotal.walkG`): area clipping, loop condition, the three exits -/
+theorem guards_cbfs_NewImage : C20Cbfs.guards_NewImage =
+    ["if: err != nil", "if: err != nil", "range: f.Areas", "for/if: a.Name.String() == \"COREBOOT\"",
+     "if: i.Area == nil", "if: size > avail", "if: size < 0", "for: off+FileSize <= r.Size()",
+     "for/if: err != nil", "for/if: err == ErrCBFSHeaderMagicNotFound", "for/if: err == io.EOF", "for/if: err != nil",
+     "for/if: !ok", "for/if: err != nil", "for/if: err != nil", "for/if: err != nil"] := by decide
+set_option maxRecDepth 100000 in
+/-- the attribute walk (T2 only): a tag of `Size < 8` ends it, so every round advances -/
+theorem guards_cbfs_FindAttribute : C20Cbfs.guards_File_FindAttribute =
+    ["for: ", "for/if: err != nil", "for/if: generic.Tag == uint32(Unused) || generic.Tag == uint32(Unused2)",
+     "for/if: generic.Size < uint32(binary.Size(generic)) || generic.Size == 0xffffffff",
+     "for/if: Tag(generic.Tag) == t", "for/if/if: int64(generic.Size) > int64(buf.Len())", "for/else/if: err != nil"] := by decide
+theorem guards_cbfs_stage : C20Cbfs.guards_LegacyStageRecord_Read =
+    ["if: err != nil", "if: err != nil", "if: err != nil", "if: err != nil", "if: int64(r.StageHeader.Size) > end-cur",
+     "if: err != nil"] := by decide
+theorem const_cbfs : CbfsTotal.fileHdr = C20Cbfs.FileSize ∧ C20Cbfs.size_FileHeader = 24 ∧ C20Cbfs.size_StageHeader = 28 ∧
+    C20Cbfs.size_PayloadHeader = 28 ∧ C20Cbfs.TypeLegacyStage = 0x10 ∧ C20Cbfs.TypeSELF = 0x20 ∧
+    CbfsTotal.segEntry = C20Cbfs.SegEntry ∧
+    C20Cbfs.layout_FileHeader = [("Magic", 8), ("Size", 4), ("Type", 4), ("AttrOffset", 4), ("SubHeaderOffset", 4)] ∧
+    (C20Cbfs.layout_StageHeader.take 4) = [("Compression", 4), ("Entry", 8), ("LoadAddress", 8), ("Size", 4)] := by decide
 
 end Fiano.C20Tie
